@@ -1,7 +1,10 @@
 import Qryn.Proofs.InternalEngines
 import Qryn.Proofs.InternalOpt
 import Qryn.Proofs.InternalJsonPath
+import Qryn.Proofs.InternalParams
 import Qryn.Gen.InternalPlanner
+import Qryn.Gen.InternalParams
+import Qryn.Gen.PlannerGlobals
 /-! # C09 — a LogQL result does not depend on which engine ran each pipeline stage
 
 Model: `Read.*` (Qryn/Read/Internal.lean) — every stage of reader/logql/logql_transpiler_v2/internal_planner as a
@@ -141,24 +144,55 @@ theorem stage_meets_logql_lineFilter (E : Env V) (op : LineOp) (val : Bytes) (es
 theorem stage_meets_logql_labelFilter (E : Env V) (h0 : E.o.isNum [] = false) (c : LabelCond) (es : List (Entry V)) :
     stageFlat E (.labelFilter c) es = labelStage E c es := label_meets E h0 c es
 
-/-- `| json`, `| logfmt`, `| logfmt name="field"`: the extracted labels are those of the definition — for JSON:
-    one label per scalar outside arrays, named by the `_`-joined sanitised path, later values replacing earlier
-    ones, up to the point where the decoder fails — and the entry moves to the series of its new label set. -/
-theorem stage_meets_logql_parser (E : Env V) (k : ParserKind) (hk : k.total = true) (es : List (Entry V))
-    (hp : ∀ e ∈ es, e.err = none) : stageFlat E (.parser k) es = parserStage E k es := parser_meets E k hk es hp
+/-- **every parser stage the in-process engine runs** — `| json`, `| json n₁="p₁", …` (any number of parameters),
+    `| logfmt`, `| logfmt n₁="k₁", …` — on every line, well-formed or not: the extracted labels are those of the
+    definition and the entry moves to the series of its new label set. For `| json`: one label per scalar outside
+    arrays, named by the `_`-joined sanitised path, later values replacing earlier ones, up to the point where the
+    decoder fails. The parameterised forms are spelled out in the next two theorems. -/
+theorem stage_meets_logql_parser (E : Env V) (k : ParserKind) (es : List (Entry V))
+    (hp : ∀ e ∈ es, e.err = none) : stageFlat E (.parser k) es = parserStage E k es := parser_meets_all E k es hp
 
-/-- `| json name="path"` (one parameter), on lines the decoder reads to the end: the label is the scalar the path
-    leads to (object keys and array indexes; for a key that occurs twice the last occurrence leading to a
-    scalar), other labels untouched, and the entry moves to the series of its new label set. Several parameters
-    with different names: covered by the correspondence and the oracle only. -/
-theorem stage_meets_logql_jsonParam (E : Env V) (n : Bytes) (p : List PathSeg) (es : List (Entry V))
-    (hp : ∀ e ∈ es, e.err = none) (hb : ∀ e ∈ es, hasBad (E.jsonDecode e.msg) = false) :
-    stageFlat E (.parser (.jsonParams [(n, p)])) es = parserStage E (.jsonParams [(n, p)]) es := by
-  simp only [stageFlat, parserStage]
-  apply List.map_congr_left
-  intro e he
-  simp only [parserFn, hp e he, Option.isSome_none, Bool.false_eq_true, if_false, relabel, parseLabels, parserLabels,
-    jsonParams_single n p _ _ (hb e he)]
+/-- **`| json n₁="p₁", n₂="p₂", …`, general case**: any number of parameters, names that repeat, names of
+    existing stream labels, paths that are prefixes of each other, array indexes, keys occurring twice, documents
+    that are malformed anywhere. What `jsonPathProcessor` leaves in the label map is `jsonPathLabels`: go through
+    the scalars of the document in document order up to the point where the decoder fails; a scalar whose address
+    (keys and indexes from the root) is the path of a parameter sets that parameter's label to its value,
+    overwriting what was there (for several such parameters: in parameter order). Hence a name used by several
+    parameters ends with the value that comes last *in the document* (not in the parameter list), a parameter
+    named like a stream label replaces it, and labels no parameter reaches stay as they were. -/
+theorem stage_meets_logql_jsonParams (E : Env V) (ps : List Ahead) (es : List (Entry V))
+    (hp : ∀ e ∈ es, e.err = none) :
+    stageFlat E (.parser (.jsonParams ps)) es =
+      es.map (fun e => relabel E e (jsonPathLabels ps (E.jsonDecode e.msg) e.labels)) :=
+  parser_meets_all E (.jsonParams ps) es hp
+
+/-- **`| logfmt n₁="k₁", …`**: the map `ParserPlanner.Process` fills from the parameters (first path segment ↦
+    name, skipping empty paths and leading indexes, a later parameter overwriting an earlier one with the same
+    key) sends every logfmt key to the label of the *last* parameter whose expression starts with that key; keys
+    no parameter names are not extracted. -/
+theorem stage_meets_logql_logfmtParams (E : Env V) (ps : List Ahead) (es : List (Entry V))
+    (hp : ∀ e ∈ es, e.err = none) :
+    stageFlat E (.parser (.logfmtParams ps)) es =
+      es.map (fun e => relabel E e (logfmtParamLabels ps (E.logfmtDecode e.msg) e.labels)) :=
+  parser_meets_all E (.logfmtParams ps) es hp
+
+/-- one parameter, a document read to the end: the general definition is the reading by lookup — the label is the
+    scalar the path leads to (for a key that occurs twice the last occurrence leading to a scalar), other labels
+    untouched. -/
+theorem jsonParam_single_is_lookup (n : Bytes) (p : List PathSeg) (doc : JVal) (l : Labels) (hb : hasBad doc = false) :
+    jsonPathLabels [(n, p)] doc l = (match lookupPath doc p with | some v => l.set n v | none => l) := by
+  rw [← jsonParams_meets, jsonParams_single n p doc l hb]
+  simp only [jsonParamLabels, List.foldl_cons, List.foldl_nil]
+  cases lookupPath doc p <;> rfl
+
+/-- which parsers the in-process engine has: `json` and `logfmt`; `regexp`, `pattern`, `unpack` are answered
+    `NotSupported` (the switch of `ParserPlanner.Process`, regenerated) -/
+theorem parser_ops_modelled :
+    Gen.InternalParams.parserOpCases = ["json", "logfmt"] ∧
+    (∀ ps, planParser .other ps = none) ∧
+    (∀ ps, planParser .json ps = some (if ps.isEmpty then .json else .jsonParams ps)) ∧
+    (∀ ps, planParser .logfmt ps = some (if ps.isEmpty then .logfmt else .logfmtParams ps)) :=
+  ⟨rfl, fun _ => rfl, fun _ => rfl, fun _ => rfl⟩
 
 theorem stage_meets_logql_labelFormat (E : Env V) (ops : List FormatOp) (es : List (Entry V))
     (hp : ∀ e ∈ es, e.err = none) : stageFlat E (.labelFormat ops) es = labelFormatStage E ops es :=
@@ -217,26 +251,24 @@ theorem stage_meets_logql_vectorAgg (N : NumOps V) (maxSeries : Nat) (g : Grid) 
     aggregate_value_congr _ g _ _ (fun l hl => vec_value N fn l hl),
     aggregate_key_congr (fun e : Entry V => e.fp) (fun e : Entry V => e.labels) g _ _ hf]
 
-/-- a pipeline of stages whose parsers are covered by `stage_meets_logql_parser` -/
-def StagesTotal (ss : List (StageK V)) : Prop := ∀ s ∈ ss, match s with | .parser k => k.total = true | _ => True
-
-theorem stages_meet_logql (E : Env V) (h0 : E.o.isNum [] = false) (ss : List (StageK V)) (ht : StagesTotal ss)
+/-- **any sequence of the modelled stages** (line filter, label filter, the four parser forms, label_format,
+    line_format, drop, unwrap) is the LogQL definition applied stage by stage — induction over the stage list -/
+theorem stages_meet_logql (E : Env V) (h0 : E.o.isNum [] = false) (ss : List (StageK V))
     (es : List (Entry V)) (hp : ∀ e ∈ es, e.err = none) :
     stagesFlat E ss es = Stages.stages E ss es ∧ ∀ e ∈ stagesFlat E ss es, e.err = none := by
   induction ss generalizing es with
   | nil => exact ⟨rfl, hp⟩
   | cons s ss ih =>
     have hs : stageFlat E s es = Stages.stage E s es := by
-      have hts := ht s List.mem_cons_self
       cases s with
       | line op val => exact line_meets E op val es hp
       | labelFilter c => exact label_meets E h0 c es
-      | parser k => exact parser_meets E k hts es hp
+      | parser k => exact parser_meets_all E k es hp
       | labelFormat ops => exact labelFormat_meets E ops es hp
       | lineFormat t => exact lineFormat_meets E t es
       | drop ns vs => exact drop_meets E ns vs es hp
       | unwrap l => exact unwrap_meets E l es hp
-    have := ih (fun x hx => ht x (List.mem_cons_of_mem _ hx)) (stageFlat E s es) (stageFlat_proper E s es hp)
+    have := ih (stageFlat E s es) (stageFlat_proper E s es hp)
     simp only [stagesFlat, Stages.stages, List.foldl_cons] at this ⊢
     rw [← hs]
     exact this
@@ -244,10 +276,10 @@ theorem stages_meet_logql (E : Env V) (h0 : E.o.isNum [] = false) (ss : List (St
 /-- **a whole log query plan is its LogQL reading**: for every batching of proper upstream entries, every series
     of the engine's output is that series of `LogQL.Stages.evalPlan` (stages in order, then the limit). -/
 theorem logPlan_meets_logql (E : Env V) (h0 : E.o.isNum [] = false) (c : Read.Ctx) (p : Plan V) (hlog : p.agg = none)
-    (ht : StagesTotal p.stages) (bs : Batches V) (hp : ∀ e ∈ bs.flatten, e.err = none) (f : UInt64) :
+    (bs : Batches V) (hp : ∀ e ∈ bs.flatten, e.err = none) (f : UInt64) :
     (runPlan E c p bs).flatten.filter (fun e => e.fp == f) =
       (evalPlan E c p bs.flatten).flatten.filter (fun e => e.fp == f) := by
-  rw [batching_invariant_logPlan E c p hlog bs f, (stages_meet_logql E h0 p.stages ht bs.flatten hp).1]
+  rw [batching_invariant_logPlan E c p hlog bs f, (stages_meet_logql E h0 p.stages bs.flatten hp).1]
   simp [evalPlan, hlog]
 
 /-! ## 3. the two engines agree on the stages both implement, at every split point -/
@@ -398,6 +430,38 @@ theorem gen_facts :
       "ppl.Parser != nil && ((ppl.Parser.Fn == \"json\" && len(ppl.Parser.ParserParams) == 0) || ppl.Parser.Fn == \"logfmt\")",
       "ppl.LineFormat != nil"] :=
   ⟨rfl, rfl, rfl, rfl, rfl, rfl, rfl, rfl, rfl, rfl, rfl, rfl, rfl, rfl⟩
+
+/-- the parameter handling of the parser stage as the source has it now — what `paramFields`, `jsonParams`,
+    `aheadsFor`, `setAll`, `logfmtFields`, `parserFn` mirror: `logfmtFields` is filled only when there are parameters,
+    for every parameter in order, skipping empty paths, only for a leading *string* segment, by map assignment
+    (later wins); `jsonWithParams` makes one ahead per parameter in parameter order; `filterAhead` drops aheads whose
+    path is exhausted and compares the first segment by type and value; a scalar is given to the aheads whose path
+    is exhausted; members nobody asks for are skipped; paths are cut by one segment on the way down; `HandleLogfmt`
+    consults the map when it is non-nil and ignores unnamed keys; `OnEntry` passes marker entries, keeps the labels
+    extracted before a parse error and recomputes the fingerprint in every case. -/
+theorem gen_facts_params :
+    Gen.InternalParams.fieldsGuard = "len(p.ParameterNames) > 0" ∧
+    Gen.InternalParams.fieldsRange = "i, name := range p.ParameterNames" ∧
+    Gen.InternalParams.fieldsSkip = ["len(p.parameterTypedValues[i]) == 0"] ∧
+    Gen.InternalParams.fieldsTypeCases = ["string"] ∧
+    Gen.InternalParams.fieldsAssign = ["p.logfmtFields = make(map[string]string, len(p.ParameterNames))",
+      "p.logfmtFields[p.parameterTypedValues[i][0].(string)] = name"] ∧
+    Gen.InternalParams.aheadsRange = "i, path := range p.parameterTypedValues" ∧
+    Gen.InternalParams.aheadsBody = ["name := p.ParameterNames[i]", "pa = append(pa, pathAhead{label: name, path: path})"] ∧
+    Gen.InternalParams.filterAheadConds = ["len(a.path) == 0", "typeCmp[int](a.path[0], key) || typeCmp[string](a.path[0], key)"] ∧
+    Gen.InternalParams.setConds = ["len(a.path) == 0", "len(a.path) == 0"] ∧
+    Gen.InternalParams.setAssigns = ["(*j.labels)[a.label] = val", "(*j.labels)[a.label] = val"] ∧
+    Gen.InternalParams.processObjectConds = ["len(aheads) == 0", "len(_aheads) == 0"] ∧
+    Gen.InternalParams.processArrayConds = ["len(aheads) == 0", "len(_aheads) == 0"] ∧
+    Gen.InternalParams.processObjectCut = ["pathAhead{label: a.label, path: a.path[1:]}"] ∧
+    Gen.InternalParams.processArrayCut = ["pathAhead{label: a.label, path: a.path[1:]}"] ∧
+    Gen.InternalParams.handleLogfmtConds = ["p.fields != nil", "l != \"\""] ∧
+    Gen.InternalParams.handleLogfmtAssigns = ["l := p.fields[string(key)]", "(*p.labels)[l] = string(val)",
+      "(*p.labels)[sanitizeLabel(string(key))] = string(val)"] ∧
+    Gen.InternalParams.parserOnEntry = ["if entry.Err != nil { return nil }",
+      "labels, err := parser(entry.Message, &entry.Labels)", "if err == nil { entry.Labels = labels }",
+      "entry.Fingerprint = fingerprint(entry.Labels)", "return nil"] :=
+  ⟨rfl, rfl, rfl, rfl, rfl, rfl, rfl, rfl, rfl, rfl, rfl, rfl, rfl, rfl, rfl, rfl, rfl⟩
 
 /-! ## non-vacuity -/
 section examples
